@@ -546,6 +546,7 @@ func main() {
 			{Name: "3regions/from-async", Tiers: "quick", Depth: 5, NewModel: func() hist.Model { return wrap{from(newModel(3, -1, 2, false, false), "async")} }},
 			{Name: "2regions+faults/from-sync-recover", Tiers: "quick", Depth: 5, NewModel: func() hist.Model { return wrap{from(newModel(2, -1, 1024, true, false), "sync_recover")} }},
 			{Name: "3regions/replicas2+2", Tiers: "quick", Depth: 5, NewModel: func() hist.Model { m := newModel(3, -1, 2, false, false); m.pr, m.dr = 2, 2; return wrap{m} }},
+			{Name: "3regions+gap-at-start/from-sync-recover", Tiers: "quick", Depth: 5, NewModel: func() hist.Model { return wrap{from(newModel(3, 0, 2, false, false), "sync_recover")} }},
 			{Name: "3regions+gap", Tiers: "quick", Depth: 5, NewModel: func() hist.Model { return wrap{newModel(3, 1, 2, false, false)} }},
 			{Name: "2regions+faults+config", Tiers: "quick", Depth: 4, NewModel: func() hist.Model { return wrap{newModel(2, -1, 1024, true, true)} }},
 			{Name: "5regions/batch3/from-sync-recover", Tiers: "quick", Depth: 8, NewModel: func() hist.Model { return wrap{from(newModel5(), "sync_recover")} }},
